@@ -1260,6 +1260,11 @@ class NAHooks(Hooks):
             return Flags(a)
         if name == 'base':
             return None if a.base is None else Opaque('base')
+        if name == 'strides':
+            # byte strides of the array with its nominal dtype (the model
+            # array stores one pointer per entry)
+            unit = a.itemsize or 1
+            return tuple(st // unit * obj.dt.d.itemsize for st in a.strides)
         if name == 'itemsize':
             return obj.dt.d.itemsize
         if name == 'nbytes':
